@@ -656,6 +656,21 @@ def run(ctx):
         if not isinstance(text, str):
             ctx.property_failure({"surface": surface, "input": case}, f"grammar is not a string: {type(text).__name__}")
             return
+        if len(text) > BIG_TEXT:
+            # A grammar far larger than any schema of this run can produce (state leaking from one compile into the next):
+            # judged by the reference parser alone, text kept only as head + length; after a few reports only counted.
+            big["n"] += 1
+            ctx.hist("oversized_grammar", surface)
+            if big["n"] <= 12 or big["n"] % 200 == 0:
+                code = RefParser(text, False).parse()[0]
+                ctx.count()
+                shown = {"surface": surface, "input": case, "grammar_length": len(text), "grammar_head": text[:1200],
+                         "grammar_tail": text[-400:]}
+                if code != 0:
+                    ctx.property_failure(shown, f"grammar is not well-formed GBNF: {CODE_NAME[code]} (oversized grammar, {len(text)} characters)")
+                else:
+                    ctx.correspondence_failure(shown, f"grammar of {len(text)} characters: larger than any schema of this run can produce")
+            return
         rec = {"text": text, "surface": surface, "case": case, "fenc": fenc, "env": env, "nameq": nameq}
         if impl_name is not None:
             rec["impl_name"] = impl_name
@@ -663,6 +678,8 @@ def run(ctx):
         if '"::" ws' in text:
             ctx.nontrivial(text)
 
+    BIG_TEXT = 20000          # packaged schemas compile to < 1 000 characters, generated ones to < 3 000
+    big = {"n": 0}
     S_X = "compile_schema(extract_schema_from_document(doc), env=%s)"
     S_M = "compile_schema(<schema of compile_gbnf_from_meta>, env=%s)"
 
